@@ -464,7 +464,66 @@ def c10(res, ctx):
     out = generic('history', 'gen_history', 'corpus + random/adversarial hash histories (2..4 distinct values, all window/parity/boundary cases, u16 cast wrap, indices up to 5001)')(res, ctx)
     return out
 
-CHECKS = {'C01': c01, 'C02': c02, 'C03': c03, 'C05': c05, 'C06': c06, 'C10': c10, 'C12': c12, 'C13': c13, 'C18': c18}
+def c04(res, ctx):
+    import subprocess
+    rng = random.Random(res.seed)
+    dump = os.path.join(V.BUILD, 'tables.dump')
+    masks = {}
+    for line in open(dump):
+        f = line.split(' ', 8)
+        if f[0] == 'magic':
+            masks[(int(f[1]), int(f[2]))] = int(f[3])
+    cases = []
+    for (kind, sq), mask in sorted(masks.items()):
+        bits = [i for i in range(64) if mask >> i & 1]
+        for n in range(1 << len(bits)):
+            occ = 0
+            for j, b in enumerate(bits):
+                if n >> j & 1: occ |= 1 << b
+            cases.append('%d\t%d\t%x' % (kind, sq, occ))
+    reduced = len(cases)
+    for _ in range(100000 if res.tier == 'quick' else 2000000):
+        cases.append('%d\t%d\t%x' % (rng.randint(0, 1), rng.randint(0, 63), rng.getrandbits(64) & rng.getrandbits(64) if rng.random() < 0.5 else rng.getrandbits(64)))
+    impl, model = diff(res, 'magic', cases)
+    rel = V.run_impl('magic', cases[:reduced], release=True)
+    k = 0
+    for c, a, b in zip(cases, impl, rel):
+        if a != b:
+            if k < MAXREP: res.violation('magic', c, a, b, 'debug vs release', 'debug and release builds disagree')
+            k += 1
+    for c, i in zip(cases, impl):
+        if i.endswith('OOR'):
+            if k < MAXREP: res.violation('magic', c, 'index inside the table', i, 'property', 'magic index outside the attack table (unchecked lookup would be UB)')
+            k += 1
+    res.exhaustive = True
+    res.notes.append('all %d reduced (square, blocker subset) configurations enumerated' % reduced)
+    # independent recomputation of ray/step attacks over the dump: names a concrete failing entry if a sweep obligation broke
+    rc, out = V.sh(['python3', os.path.join(V.ROOT, 'checks', 'c04_find_bad.py'), dump])
+    out = out.strip()
+    if out and out != 'null':
+        try:
+            w = json.loads(out.split('\n')[-1])
+            res.violation('magic', '%s\t%s\t%x' % (w.get('kind'), w.get('sq'), w.get('occ', 0)) if 'occ' in w else json.dumps(w), str(w.get('expected')), str(w.get('got')), 'ray/step attacks', w.get('reason', 'table entry differs from the ray/step attacks'))
+        except Exception:
+            res.notes.append('c04_find_bad: ' + out[-300:])
+    return dict(rule='exhaustive: every subset of every square\'s relevant-blocker mask for rooks and bishops (index and lookup through the hook, debug and release) plus random full 64-bit occupancies; the 4x64 leaper entries are covered by the regenerated Coq sweep and c04_find_bad.py')
+
+def c17(res, ctx):
+    return generic('pgn', 'gen_pgn', 'Lichess-layout files (1-6 games, castling tokens, comments, every result token, with/without trailing newline) x chunk sizes {1,2,3,5,7,64,8192,..} x random read fragmentations, plus malformed files')(res, ctx)
+
+def _engine(name):
+    def run(res, ctx):
+        import engine_props
+        return getattr(engine_props, name)(res, ctx)
+    return run
+
+def c10_full(res, ctx):
+    out = c10(res, ctx)
+    import engine_props
+    engine_props.c10_engine(res)
+    return out
+
+CHECKS = {'C04': c04, 'C07': _engine('c07'), 'C08': _engine('c08'), 'C09': _engine('c09'), 'C11': _engine('c11'), 'C16': _engine('c16'), 'C17': c17, 'C01': c01, 'C02': c02, 'C03': c03, 'C05': c05, 'C06': c06, 'C10': c10_full, 'C12': c12, 'C13': c13, 'C18': c18}
 
 ASSUME = {
     'C18': ['std HashMap/VecDeque behave as a map and a queue'],
